@@ -338,7 +338,7 @@ inductive Call where
   | cancelLoop (st : Status) (fromAll : Bool)
   | destroy
   | probe (srv : Nat) (key : Nat)
-  | clientStart (kind : String) (tok : Nat) (react : List Nat) (spec : ReqSpec)
+  | clientStart (kind : String) (tok : Nat) (react : List Nat) (spec : ReqSpec) (family : Nat)
   | runActs (id : Nat) (acts : List ClientAct)
   | userCb (tok : Nat) (react : List Nat) (st : Status) (timeouts : Nat) (dg : String)
   deriving Repr, Inhabited
@@ -448,7 +448,9 @@ def bodySendNolock (go : Call → St → St × Ret) (reqSrv : Option Nat) (nocac
     let s := if nocache then s else s.cacheExpire
     match (if nocache then none else s.cacheFetch spec.name spec.qtype spec.qclass spec.rd) with
     | some e =>
-      let (s, _) := go (.callback owner react .ok 0 (some e.reply)) s
+      -- ares_dns_record_ttl_decrement: every TTL read from the cached record is reduced by the time cached
+      let dec := s.nowSec - e.insert
+      let (s, _) := go (.callback owner react .ok 0 (some { e.reply with ttls := e.reply.ttls.map (· - dec) })) s
       (s, .ok)
     | none =>
       -- ares_dns_record_duplicate_ex writes and re-parses the request: a name whose escaped text
@@ -460,14 +462,16 @@ def bodySendNolock (go : Call → St → St × Ret) (reqSrv : Option Nat) (nocac
       let key := s.nextKey
       let usingTcp := s.cfg.usevc
       -- ares_apply_dns0x20 draws (len+7)/8 random bytes; only 1- and 2-byte draws are observed
-      let nbytes := (nameTextLen spec.name + 7) / 8
-      let s := if s.cfg.dns0x20 && !usingTcp && nameTextLen spec.name > 0 then
+      -- (the name it sees is the duplicated request's: escapes decoded, trailing dot gone)
+      let sentName := normEscapes (stripDot spec.name)
+      let nbytes := (nameTextLen sentName + 7) / 8
+      let s := if s.cfg.dns0x20 && !usingTcp && nameTextLen sentName > 0 then
           (if nbytes == 1 then s.draw1.2 else if nbytes == 2 then s.draw2.2 else s) else s
       -- the request is duplicated by writing and re-parsing it: a trailing dot does not survive
-      let q : Query := { key := key, qid := qid, owner := owner, react := react, name := normEscapes (stripDot spec.name),
+      let q : Query := { key := key, qid := qid, owner := owner, react := react, name := sentName,
                          qtype := spec.qtype, qclass := spec.qclass, rd := spec.rd, edns := spec.edns,
                          usingTcp := usingTcp, noRetries := noretry }
-      let s := { s with nextKey := key + 1, qs := s.qs ++ [q], all := s.all ++ [key],
+      let s := { s with lastQid := qid, nextKey := key + 1, qs := s.qs ++ [q], all := s.all ++ [key],
                         byQid := s.byQid ++ [(qid, key)] }
       go (.sendQuery reqSrv key) s
 
@@ -1000,9 +1004,9 @@ def bodyCleanupConns (go : Call → St → St × Ret) (todo : List Nat) (s : St)
       go (.cleanupConns rest) s
 
 /-- `clientStart` with the recursive calls abstracted as `go` -/
-def bodyClientStart (go : Call → St → St × Ret) (kind : String) (tok : Nat) (react : List Nat) (spec : ReqSpec) (s : St) : St × Ret :=
+def bodyClientStart (go : Call → St → St × Ret) (kind : String) (tok : Nat) (react : List Nat) (spec : ReqSpec) (family : Nat) (s : St) : St × Ret :=
   let id := s.nextClient
-  let (c, acts) := clientStart s.cfg id kind tok react spec
+  let (c, acts) := clientStart s.cfg id kind tok react spec family
   let s := { s with clients := s.clients ++ [c], nextClient := id + 1 }
   go (.runActs id acts) s
 
@@ -1014,6 +1018,18 @@ def bodyRunActs (go : Call → St → St × Ret) (id : Nat) (acts : List ClientA
     let (s, st) := go (.sendNolock none false false spec (.client id) []) s
     let (s, st') := go (.runActs id rest) s
     (s, if rest.isEmpty then st else st')
+  | .sendSlot spec slot :: rest =>
+    let (s, st) := go (.sendNolock none false false spec (.client id) []) s
+    -- ares_query_nolock stores the query id through its out parameter on success
+    let s := if st == .ok then s.modClient id fun c =>
+        if slot == 0 then { c with qidA := s.lastQid } else { c with qidAAAA := s.lastQid } else s
+    let (s, st') := go (.runActs id rest) s
+    (s, if rest.isEmpty then st else st')
+  | .noRetry qid :: rest =>
+    let s := match s.byQid.find? (·.1 == qid) with
+      | some (_, key) => s.modQuery key fun q => { q with noRetries := true }
+      | none => s
+    go (.runActs id rest) s
   | .finish st timeouts dg :: _ =>
     -- user callback first, then the compound request's state is released
     match s.client? id with
@@ -1077,7 +1093,7 @@ def execBody (go : Call → St → St × Ret) (call : Call) (s : St) : St × Ret
   | .processAnswer fd r => bodyProcessAnswer go fd r s
   | .processTimeouts  => bodyProcessTimeouts go  s
   | .cleanupConns todo => bodyCleanupConns go todo s
-  | .clientStart kind tok react spec => bodyClientStart go kind tok react spec s
+  | .clientStart kind tok react spec family => bodyClientStart go kind tok react spec family s
   | .runActs id acts => bodyRunActs go id acts s
   | .cancel  => bodyCancel go  s
   | .cancelLoop st fromAll => bodyCancelLoop go st fromAll s
